@@ -218,7 +218,13 @@ func (c *Collector) Report(v *Violation, cs any) bool {
 	c.mu.Unlock()
 	out := os.Getenv("VERIF_OUT")
 	if out != "" && n <= 400 {
-		rec := map[string]any{"property": c.Prop, "sig": v.Sig, "msg": v.Msg, "case": cs}
+		// "job" names the job of the check that produced the case (shard label without its index), so that
+		// `run.py --replay` can pick the package of that job when a check has engines in several packages
+		job := shard()
+		if i := strings.LastIndexByte(job, '-'); i > 0 {
+			job = job[:i]
+		}
+		rec := map[string]any{"property": c.Prop, "sig": v.Sig, "msg": v.Msg, "case": cs, "job": job}
 		b, err := json.MarshalIndent(rec, "", " ")
 		if err == nil {
 			name := fmt.Sprintf("fail-%s-%05d.json", shard(), n)
